@@ -415,7 +415,9 @@ func (r *Run) Parallel(n int, what string, f func(i int)) {
 					atomic.StoreInt32(&cut, 1)
 					return
 				}
-				f(i)
+				if p, w := Guard(func() { f(i) }); p {
+					r.StrayPanic(fmt.Sprintf("%s, item %d", what, i), w)
+				}
 			}
 		}()
 	}
@@ -423,6 +425,22 @@ func (r *Run) Parallel(n int, what string, f func(i int)) {
 	if cut != 0 {
 		r.Incomplete("time budget reached during " + what)
 	}
+}
+
+// StrayPanic is the safety net for a panic that escaped the guarded calls of a check: when it was raised inside
+// go-mail it is a finding of the property under check (no entry point may panic), otherwise a defect of the harness.
+func (r *Run) StrayPanic(where, stack string) {
+	site := PanicSite(stack)
+	first := stack
+	if i := strings.Index(first, "\n"); i > 0 {
+		first = first[:i]
+	}
+	if site == "unknown" {
+		r.HarnessError("panic in the harness (%s): %s", where, stack)
+		return
+	}
+	r.Violation("panic/"+site+"/outside-the-guarded-call", fmt.Sprintf("go-mail panicked in a preparatory step of the check (%s): %s", where, first),
+		map[string]string{"where": where, "stack": stack}, nil)
 }
 
 // Guard runs f and converts a panic into (true, description).
